@@ -41,6 +41,9 @@ func checkC04(ctx *Ctx, r *Report) {
 	c04RefLoops(ctx, r, like)
 	c04Worklists(ctx, r, g)
 	c04VisitedProtocol(ctx, r, g)
+	c04InterfaceEquality(ctx, r)
+	c04UnfoldOnce(ctx, r)
+	c04InterfaceEqualitySelfTest(ctx, r)
 	c04Fixpoints(ctx, r)
 	c04FixpointSelfTest(ctx, r)
 	c04Panics(ctx, r, g)
@@ -2290,4 +2293,189 @@ func c04CueDepthBounded(ctx *Ctx, r *Report, g *callGraph) {
 	ok := counter != nil && decDeferred && bounded && (!first.IsValid() || incAt < first)
 	r.Check(ok, "cgraph/cue-recursion-depth-bounded", "simplecue.generator.declareNode", fd.Pos(), "the nesting depth is counted, restored on exit and compared with a constant bound before the node is expanded",
 		"declareNode expands the value it is given without any bound on the nesting: CUE evaluates lazily, and `Node: {children: [...Node & {leaf: bool}]}` — a self-reference refined by a unification, which is no longer a reference — is unfolded until the stack overflows (a fatal error after ~14 s, or a hang with larger objects)")
+}
+
+// c04InterfaceEquality: `a == b` between two values of type `any` panics at run time when their dynamic type is not
+// comparable (a list, a map: "comparing uncomparable type []interface {}"), and so does `m[k]` for a map keyed by `any`
+// ("hash of unhashable type"). The values cog keeps in `any` fields — defaults, constants, enum values — are whatever
+// the input document held. In the packages that handle the IR no `==` / `!=` has two operands of an empty interface
+// type (nil and constants excepted), and no map keyed by an empty interface is indexed by a value that does not come
+// out of a range over a map with the same key type.
+func c04InterfaceEquality(ctx *Ctx, r *Report) {
+	n := 0
+	isAny := func(t types.Type) bool {
+		if t == nil {
+			return false
+		}
+		it, ok := t.Underlying().(*types.Interface)
+		return ok && it.Empty()
+	}
+	ctx.AllFuncDecls(func(p *packages.Package, fd *ast.FuncDecl, obj *types.Func) {
+		if fd.Body == nil {
+			return
+		}
+		if !strings.Contains(p.PkgPath, "/internal/") && !strings.Contains(p.PkgPath, "/cmd/") {
+			return
+		}
+		info := p.TypesInfo
+		// keys that come out of a range over a map are hashable
+		rangeKeys := map[types.Object]bool{}
+		ast.Inspect(fd.Body, func(m ast.Node) bool {
+			if rs, ok := m.(*ast.RangeStmt); ok {
+				if _, isMap := info.TypeOf(rs.X).Underlying().(*types.Map); isMap {
+					if id, ok := rs.Key.(*ast.Ident); ok {
+						rangeKeys[info.Defs[id]] = true
+					}
+				}
+			}
+			return true
+		})
+		k := 0
+		ast.Inspect(fd.Body, func(m ast.Node) bool {
+			switch x := m.(type) {
+			case *ast.BinaryExpr:
+				if x.Op != token.EQL && x.Op != token.NEQ {
+					return true
+				}
+				tx, ty := info.Types[x.X], info.Types[x.Y]
+				if !isAny(tx.Type) || !isAny(ty.Type) || tx.IsNil() || ty.IsNil() || tx.Value != nil || ty.Value != nil {
+					return true
+				}
+				n++
+				k++
+				r.Bad("flow/interface-values-compared-deeply", fmt.Sprintf("%s compares %s #%d", ctx.FuncName(obj), exprString(x), k), x.Pos(),
+					fmt.Sprintf("%s compares two values of type any with %s: when both hold a list or a map (an enum member and a default taken from the input document) the comparison panics `comparing uncomparable type []interface {}`", ctx.FuncName(obj), x.Op))
+			case *ast.IndexExpr:
+				mt, ok := info.TypeOf(x.X).Underlying().(*types.Map)
+				if !ok || !isAny(mt.Key()) {
+					return true
+				}
+				tk := info.Types[x.Index]
+				if tk.Value != nil || !isAny(tk.Type) {
+					return true
+				}
+				if id, ok := ast.Unparen(x.Index).(*ast.Ident); ok && rangeKeys[objOf(info, id)] {
+					return true
+				}
+				n++
+				k++
+				r.Bad("flow/interface-values-compared-deeply", fmt.Sprintf("%s indexes %s #%d", ctx.FuncName(obj), exprString(x), k), x.Pos(),
+					fmt.Sprintf("%s uses a value of type any as a map key: a list or a map there panics `hash of unhashable type`", ctx.FuncName(obj)))
+			}
+			return true
+		})
+	})
+	r.Count("comparisons / map keys of empty-interface values", n)
+	if n == 0 {
+		r.OK("flow/interface-values-compared-deeply", "values of type any in cog's own packages", token.NoPos, "none is compared with == or used as a map key")
+	}
+}
+
+func c04InterfaceEqualitySelfTest(ctx *Ctx, r *Report) {
+	selfTest(ctx, r, "flow/interface-values-compared-deeply", "any_values_compared", true, `package fx
+func member(values []any, wanted any) int {
+	for i, v := range values {
+		if v == wanted {
+			return i
+		}
+	}
+	return -1
+}`, c04InterfaceEquality)
+	selfTest(ctx, r, "flow/interface-values-compared-deeply", "any_value_as_key", true, `package fx
+func distinct(values []any) int {
+	seen := make(map[any]struct{})
+	for _, v := range values {
+		seen[v] = struct{}{}
+	}
+	return len(seen)
+}`, c04InterfaceEquality)
+	selfTest(ctx, r, "flow/interface-values-compared-deeply", "any_values_deep_equal", false, `package fx
+import "reflect"
+func member(values []any, wanted any) int {
+	for i, v := range values {
+		if v != nil && reflect.DeepEqual(v, wanted) {
+			return i
+		}
+	}
+	return -1
+}`, c04InterfaceEquality)
+}
+
+// c04UnfoldOnce: FlattenDisjunctions replaces a reference to a union by the branches of that union, recursively. The set
+// of references *being* unfolded (entries deleted on the way back) stops cycles; it does not stop a union reached twice
+// from being unfolded twice — and `Dn: D(n-1) | D(n-1) | bool` doubles the work at every level: 40 definitions do not
+// return. Bounded time needs a second, monotone set — tested before the recursive call, inserted into, never deleted
+// from — of the references already unfolded within the call.
+func c04UnfoldOnce(ctx *Ctx, r *Report) {
+	fn := ctx.LookupMethod("internal/ast/compiler", "FlattenDisjunctions", "flattenDisjunction")
+	fd, p := ctx.DeclOf(fn)
+	if fd == nil {
+		r.Undecided("anchor lost: compiler.FlattenDisjunctions.flattenDisjunction")
+		return
+	}
+	info := p.TypesInfo
+	type setInfo struct{ tested, inserted, deleted bool }
+	sets := map[types.Object]*setInfo{}
+	// sets keyed by the reference being followed (`branch.Ref.String()`), not the set of branches already emitted
+	byRef := func(key ast.Expr) bool { return strings.Contains(exprString(key), ".Ref") }
+	get := func(e ast.Expr) *setInfo {
+		id, ok := ast.Unparen(e).(*ast.Ident)
+		if !ok {
+			return nil
+		}
+		o := objOf(info, id)
+		if o == nil {
+			return nil
+		}
+		if _, isMap := o.Type().Underlying().(*types.Map); !isMap {
+			return nil
+		}
+		if sets[o] == nil {
+			sets[o] = &setInfo{}
+		}
+		return sets[o]
+	}
+	ast.Inspect(fd.Body, func(m ast.Node) bool {
+		switch x := m.(type) {
+		case *ast.IfStmt:
+			if as, ok := x.Init.(*ast.AssignStmt); ok && len(as.Rhs) == 1 && endsInExit(x.Body) {
+				if ix, ok := ast.Unparen(as.Rhs[0]).(*ast.IndexExpr); ok && byRef(ix.Index) {
+					if si := get(ix.X); si != nil {
+						si.tested = true
+					}
+				}
+			}
+		case *ast.AssignStmt:
+			for _, l := range x.Lhs {
+				if ix, ok := ast.Unparen(l).(*ast.IndexExpr); ok && byRef(ix.Index) {
+					if si := get(ix.X); si != nil {
+						si.inserted = true
+					}
+				}
+			}
+		case *ast.CallExpr:
+			if isBuiltinCall(info, x, "delete") && len(x.Args) == 2 {
+				if si := get(x.Args[0]); si != nil {
+					si.deleted = true
+				}
+			}
+		}
+		return true
+	})
+	cycle, done := false, false
+	for _, si := range sets {
+		if si.tested && si.inserted && si.deleted {
+			cycle = true
+		}
+		if si.tested && si.inserted && !si.deleted {
+			done = true
+		}
+	}
+	if !cycle {
+		r.Undecided("anchor changed: flattenDisjunction no longer keeps the set of references being unfolded")
+		return
+	}
+	r.Count("unfolding loops over referenced unions", 1)
+	r.Check(done, "flow/unfold-once", "FlattenDisjunctions.flattenDisjunction unfolds a referenced union once", fd.Pos(), "a set of the references already unfolded is tested before the recursive call and never shrinks",
+		"flattenDisjunction only remembers the references it is in the middle of unfolding: a union reached through two branches is unfolded twice, at every level — `D0: string | integer`, `Dn: D(n-1) | D(n-1) | boolean` takes 2^n steps for three branches, and 40 definitions do not return")
 }
